@@ -1,10 +1,68 @@
-(* C19 — property theorems.  Only statements closed by [exact]; proofs live in Lsp/*.v. *)
-From Coq Require Import List Arith.
-Import ListNotations.
-From NV Require Import Lsp.World Lsp.Spec Lsp.Witness.
+(* C19 — property theorems.  Only statements closed by [exact]; proofs live in Lsp/*.v.
 
-(* The model of the code as it is violates the property on these histories (replayed on the real
-   server: corpus/C19, known_findings.txt). *)
+   [good pick disk rank fuel h]: [pick] (the iteration order of the server's hash maps) is any
+   permutation; every import of every document version in [h] and on [disk] goes to a document of
+   smaller [rank] (one DAG order for the whole history), ranks are below [fuel]; the client sends
+   didChange only for open documents.  [cf] is any configuration of the model (the code as it
+   is, [cfg_code], or with the proposed patches, [cfg_patched]). *)
+From Coq Require Import List Arith Permutation.
+Import ListNotations.
+From NV Require Import Lsp.World Lsp.Spec Lsp.Inv Lsp.Witness Lsp.Main.
+
+(* the server never terminates abnormally *)
+Theorem C19_no_crash : forall cf pick disk rank fuel h, good pick disk rank fuel h ->
+  exists w, run cf pick disk fuel h = Ok w.
+Proof. exact no_crash. Qed.
+
+(* after every history, every cached analysis of a current file was computed from the current text
+   and its diagnostics equal those recomputed from the current documents *)
+Theorem C19_analysis_fresh : forall cf pick disk rank fuel h w, good pick disk rank fuel h ->
+  run cf pick disk fuel h = Ok w ->
+  forall p f a, live_id w p = Some f -> w_an w f = Some a ->
+    final_docs disk h p = Some (a_src a) /\ a_state a <> Typechecking /\
+    (a_state a = Typechecked -> same_diags (a_tdiags a) (expect_t (final_docs disk h) fuel p)).
+Proof. exact analysis_fresh. Qed.
+
+Theorem C19_open_analysed : forall cf pick disk rank fuel h w, good pick disk rank fuel h ->
+  run cf pick disk fuel h = Ok w ->
+  forall p, bufs_after no_bufs h p <> None ->
+    exists f a, live_id w p = Some f /\ w_an w f = Some a /\ a_state a = Typechecked.
+Proof. exact open_analysed. Qed.
+
+(* two histories ending in the same documents leave the same analyses *)
+Theorem C19_answers_history_independent :
+  forall cf pick1 pick2 disk rank fuel h1 h2 w1 w2,
+  good pick1 disk rank fuel h1 -> good pick2 disk rank fuel h2 ->
+  (forall p, bufs_after no_bufs h1 p = bufs_after no_bufs h2 p) ->
+  run cf pick1 disk fuel h1 = Ok w1 -> run cf pick2 disk fuel h2 = Ok w2 ->
+  forall p,
+    (bufs_after no_bufs h1 p <> None -> exists a1 a2, view w1 p = Some a1 /\ view w2 p = Some a2) /\
+    (forall a1 a2, view w1 p = Some a1 -> view w2 p = Some a2 ->
+       a_src a1 = a_src a2 /\
+       (a_state a1 = Typechecked -> a_state a2 = Typechecked -> same_diags (a_tdiags a1) (a_tdiags a2))).
+Proof. exact answers_history_independent. Qed.
+
+(* supporting invariants *)
+Theorem C19_rev_imports_complete : forall cf pick disk rank fuel h w, good pick disk rank fuel h ->
+  run cf pick disk fuel h = Ok w ->
+  forall f a q, w_an w f = Some a -> a_state a = Typechecked ->
+    In q (fst (reach (final_docs disk h) (c_imports (a_src a)))) ->
+    exists t, live_id w q = Some t /\ w_an w t <> None /\ In f (w_rev w t) /\ In t (w_imports w f).
+Proof. exact rev_imports_complete. Qed.
+
+Theorem C19_failed_imports_complete : forall cf pick disk rank fuel h w, good pick disk rank fuel h ->
+  run cf pick disk fuel h = Ok w ->
+  forall f a q, w_an w f = Some a -> a_state a = Typechecked ->
+    snd (reach (final_docs disk h) (c_imports (a_src a))) = Some q -> In f (w_failed w q).
+Proof. exact failed_imports_complete. Qed.
+
+(* the hypotheses are satisfiable by a history with an import, a close and a type error *)
+Theorem C19_good_example : good idpick disk1 rank1 2 hist1.
+Proof. exact good_example. Qed.
+
+(* The model of the code as it is violates the property outside that class, and — for the
+   diagnostics published for a closed file — inside it (replayed on the real server: corpus/C19,
+   known_findings.txt). *)
 Theorem C19_closed_buffer_refuted :
   exists rank disk h w ds,
     hist_respects rank disk h /\ client_ok no_bufs h = true /\
